@@ -7,6 +7,11 @@ BASELINE = ("cd /repo && (cargo nextest run --workspace --no-fail-fast --tool-co
 
 # id -> (level, technique, level text, note, design ref)
 CHECKS = {
+ "C20": ("exploration",
+         "property-based testing with a harness-computed ground-truth tree: values of the C13 grammar decorated with presentation wrappers (exhaustive comment / block-string pools x positions x options + proptest decorations); oracle = same data as the undecorated value, typed and untyped",
+         "Every comment of an adversarial pool ('#', LF / CR / NEL / LS breaks, YAML syntax, quotes, NUL, tabs, long text) on every scalar kind in 4 positions, every block string of a pool (leading blanks, 0-3 trailing newlines, long words, tabs, controls) under LitStr / FoldStr in 4 positions, each x 11 option vectors x wrapper stacks, plus random decorations (FlowSeq, FlowMap, LitStr, FoldStr, Commented, SpaceAfter, nested) of random typed trees under random options: the output is one document, deserializes into the bare type as the original value and its untyped view equals the harness' ground truth (folded strings modulo one trailing line break); concrete wrapped types round-trip into the wrapped types (start-up check). Exploration.",
+         "shapes covered by open C13 findings (empty_as_braces=false empties, composite keys, indent_step=1) are discarded and counted; five open wrapper findings are excluded by signature (FoldStr inner breaks - documented, LitStr/FoldStr without content - pinned by tests, SpaceAfter after literal - documented for LitStr, payload variants / composite keys inside FlowSeq/FlowMap)",
+         "DESIGN.md section 3 C20"),
  "C06": ("exploration",
          "exhaustive finite product (token corpus x style x tag x target x 16 option vectors) + proptest numeric tokens + exhaustive short base64 strings; oracle = independent three-valued reference model (own big integer, Rust float parser, own strict base64 decoder)",
          "Every cell of about 280 core tokens x 5 styles x 9 tags x 20 targets, 1242 (thorough 2616) width-boundary integer spellings in every radix x 20 targets, all 299593 base64 strings of length <= 6 over an 8-character alphabet, all byte arrays of length <= 2, random numeric-looking tokens and byte arrays; each case is evaluated under all 16 option vectors at the root and inside a sequence against a model that answers Must / MustErr / Free, plus a per-option metamorphic relation (an option changes acceptance only in the documented direction). Exhaustive over the stated finite product, exploration beyond.",
